@@ -76,7 +76,7 @@ Proof.
   assert (Hr : r < sz B) by (apply N.mod_lt; exact HB0).
   set (c := if negb (r =? 0) then 1 else 0).
   assert (Hc : (if negb (r =? 0) then Ret 1 else Ret 0) = Ret c) by (unfold c; destruct (negb (r =? 0)); reflexivity).
-  rewrite Hc. cbn [bind].
+  try rewrite Hc. fold c. cbn [bind].      (* `if r != 0 {1} else {0}` or `(r != 0) as usize` *)
   assert (Hcle : c <= 1) by (unfold c; destruct (negb (r =? 0)); lia).
   assert (Hq : q <= n0) by (unfold q; apply N.div_le_upper_bound; [exact HB0 | nia]).
   unfold add_m. assert (Hadd : (q + c <? USIZE) = true) by (apply N.ltb_lt; big_consts; lia).
